@@ -44,6 +44,7 @@ func c04Parse(w *c04World) wire.ParseFn {
 		return []wire.PreparedOptionFn{wire.WithParameters(wire.ParseParameters(q))}
 	}
 	inner := w.rec.ParseFn()
+	static := []oid.Oid{0, oid.T_text, 0} // one list per server, shared by all of its connections
 	copyCols := wire.Columns{{Name: "i", Oid: oid.T_int4}, {Name: "t", Oid: oid.T_text}}
 	return func(ctx context.Context, q string) (wire.PreparedStatements, error) {
 		w.ev("parse %q", q)
@@ -92,6 +93,12 @@ func c04Parse(w *c04World) wire.ParseFn {
 				}
 				return fmt.Errorf("runaway")
 			}, wire.WithColumns(copyCols))), nil
+		case strings.HasPrefix(q, "static"):
+			// a handler that serves a static catalogue: ONE declared parameter list shared by every connection
+			return wire.Prepared(wire.NewStatement(func(ctx context.Context, dw wire.DataWriter, params []wire.Parameter) error {
+				w.ev("static stmt, %d parameters", len(params))
+				return dw.Complete("STATIC")
+			}, wire.WithParameters(static))), nil
 		case strings.HasPrefix(q, "select"):
 			// a statement that echoes its parameters through their own decoder
 			return wire.Prepared(wire.NewStatement(func(ctx context.Context, dw wire.DataWriter, params []wire.Parameter) error {
@@ -195,6 +202,14 @@ func c04Sessions() []c04Session {
 	for k := 1; k <= 2*len(frame); k++ {
 		out = append(out, c04Session{Name: fmt.Sprintf("oversized by %d then a payload of framed queries", k), NoPrefix: true,
 			Segs: [][]byte{pgproto.Startup("user", "u"), pgproto.Msg('Q', make([]byte, c04Limit+k)), pgproto.Msg('d', payload[:8000]), pgproto.Msg('d', payload[:8000]), pgproto.Msg('d', payload[:8000]), pgproto.Query(progRows)}})
+	}
+	// Parse messages declaring k parameter types for statements with fewer / as many / more parameters
+	for k := 0; k <= 4; k++ {
+		for _, q := range []string{progRows, "select $1", "select $1, $2", "#perr"} {
+			types := []uint32{23, 0, 25, 20}[:k]
+			out = append(out, c04Session{Name: fmt.Sprintf("parse %q declaring %d parameter types", q, k), NoPrefix: true,
+				Segs: [][]byte{pgproto.Startup("user", "u"), pgproto.Parse("s", q, types...), pgproto.Describe('S', "s"), pgproto.Sync(), pgproto.Parse("", q, types...), pgproto.Sync(), pgproto.Query(progRows)}})
+		}
 	}
 	bodies := c04Bodies()
 	starts := []struct {
@@ -1015,6 +1030,7 @@ func c04Enumerate(tier string, emit explore.Emit) {
 				Run:  func() explore.Result { return c04RunFault(s, f, name+" (input arriving byte by byte)", 1) }})
 		}
 		for b := 1; b <= n; b += step {
+			addSlow(memnet.Faults{ReadErrAt: b + 1, Timeout: true}, fmt.Sprintf("after %d bytes reads fail with a timeout error (an expired deadline: every later read fails the same way)", b))
 			addSlow(memnet.Faults{FailAfterRead: b}, fmt.Sprintf("after %d bytes reads and writes fail", b))
 			addSlow(memnet.Faults{ReadErrAt: b + 1}, fmt.Sprintf("after %d bytes reads fail (writes still succeed)", b))
 		}
